@@ -71,3 +71,19 @@ int ht_describe(char *buf, size_t n)
 }
 /* forget one block on purpose (e.g. a pointer handed to the harness that is freed outside tracking) */
 void ht_forget(const void *p) { ht_free_hook(p); }
+/* 1 if every live block is exactly a C string (size == strlen + 1) that ends with `suffix` (used to recognise one
+ * known finding precisely: anything else that is still live keeps alarming) */
+int ht_live_all_cstr_suffix(const char *suffix)
+{
+    size_t sl = strlen(suffix);
+    for (unsigned i = 0; i < HT_CAP; i++) {
+        if (ht_tab[i].p > 1) {
+            const char *t = (const char *) ht_tab[i].p;
+            size_t sz = ht_tab[i].sz, k;
+            if (sz < sl + 1 || t[sz - 1] != 0) return 0;
+            for (k = 0; k + 1 < sz; k++) if (!t[k]) return 0;
+            if (memcmp(t + sz - 1 - sl, suffix, sl) != 0) return 0;
+        }
+    }
+    return 1;
+}
